@@ -182,6 +182,38 @@ class Interp:
             return Agg(v.kind, v.name, v.variant, [self.resolve_own(env, x, depth + 1) for x in v.fields])
         return v
 
+    def promoted_value(self, idx):
+        """value of a promoted constant of this body's function (`&(0.0..=1.0)`, `&[1, 2]`): its small body is
+        interpreted; the result is the referenced value (references to plain values are transparent)"""
+        fn = getattr(self.body, "fn", None)
+        proms = getattr(fn, "promoted", None) or []
+        if idx >= len(proms) or self.depth >= self.max_depth:
+            return TOP
+        cache = getattr(fn, "_prom_cache", None)
+        if cache is None:
+            cache = fn._prom_cache = {}
+        if idx in cache:
+            return cache[idx]
+        sub = Interp(proms[idx], self.oracle, [], 3, 16, self.facts, self.inline, self.depth + 1, self.max_depth)
+        sub.variant_index = self.variant_index
+        saved = self.mstate
+        sub.init_state = {}
+        val = TOP
+        try:
+            paths = sub.run()
+            if len(paths) == 1 and paths[0].end == "return":
+                v = paths[0].ret
+                hops = 0
+                while isinstance(v, Ref) and hops < 4:
+                    v = sub._project(paths[0].env, paths[0].env.get(v.local, TOP), v.proj)
+                    hops += 1
+                if not _contains_ref(v):
+                    val = v
+        finally:
+            self.mstate = saved
+        cache[idx] = val
+        return val
+
     # ---- nested interpretation
     def call_body(self, fn, args):
         """outcomes [(ret, events, end)] of interpreting crate function `fn` on args"""
@@ -384,8 +416,11 @@ class Interp:
         if isinstance(e, list) and e[0] in ("i", "ci") and hasattr(base, "vid") and not isinstance(base, HRef):
             h = dict(self.mstate.get("heap", {}))
             items = list(h.get(base.vid, ()))
-            idx = env.get(e[1], TOP) if e[0] == "i" else ((len(items) - e[1]) if e[2] else e[1])
-            if isinstance(idx, int) and not isinstance(idx, bool) and 0 <= idx < len(items):
+            lo_ = getattr(base, "lo", None) or 0
+            n_ = (base.hi - lo_) if getattr(base, "lo", None) is not None else len(items)
+            idx = env.get(e[1], TOP) if e[0] == "i" else ((n_ - e[1]) if e[2] else e[1])
+            if isinstance(idx, int) and not isinstance(idx, bool) and 0 <= idx < n_:
+                idx += lo_
                 items[idx] = self._store(env, items[idx], proj[1:], val)
                 h[base.vid] = tuple(items)
                 self.mstate["heap"] = h
@@ -417,6 +452,8 @@ class Interp:
                 return c["v"]
             if c.get("text") == "()" or c["ty"] == "()":
                 return Agg("tuple", None, None, [])
+            if "promoted" in c:
+                return self.promoted_value(c["promoted"])
             return TOP
         return TOP
 
@@ -493,7 +530,12 @@ class Interp:
                 if base is TOP:
                     return TOP
                 if isinstance(base, HRef):
-                    return base if len(p[1]) == 1 else self._project(env, base, p[1])
+                    if len(p[1]) == 1:
+                        return base
+                    v_ = self._project(env, base, p[1])
+                    if hasattr(v_, "borrowed") and not v_.borrowed:      # `&mut elem.field` holding a vector handle
+                        v_ = type(v_)(v_.vid, True, v_.lo, v_.hi)
+                    return v_
                 # reference to (part of) a plain value: transparent
                 return self._project(env, base, p[1][1:])
             return Ref(p[0], p[1])
@@ -711,6 +753,14 @@ class Interp:
                 self.paths.append(path)
                 break
         return self.paths
+
+
+def _contains_ref(v, depth=0):
+    if isinstance(v, (Ref, HRef)) or hasattr(v, "vid"):
+        return True
+    if isinstance(v, Agg) and depth < 6:
+        return any(_contains_ref(x, depth + 1) for x in v.fields)
+    return False
 
 
 # ------------------------------------------------------------------ standard transfer table
